@@ -1209,6 +1209,14 @@ class PSBTIn:
                                 named_pub.sec().hex()
                             )
                         )
+            elif self.redeem_script:
+                # p2sh whose RedeemScript is not a witness program
+                for sec in self.named_pubs.keys():
+                    try:
+                        # this will raise a ValueError if it's not in there
+                        self.redeem_script.commands.index(sec)
+                    except ValueError:
+                        raise ValueError(f"pubkey is not in RedeemScript {self}")
         else:
             # non-witness input
             if self.witness_script:
